@@ -617,6 +617,26 @@ def gen_final_number_cases(rng, count):
     return cases
 
 
+def gen_at_offset_cases(rng, count):
+    """FilePiece(fd) on a regular file whose descriptor sits at an offset behind a header the caller consumed: offsets around
+    page multiples and arbitrary ones, plain and compressed (also multi-member) content, a header that itself begins with the
+    gzip magic (MOZ).  The oracle is the usual one on the content from that offset; offsets are relative to it."""
+    cases = []
+    for _ in range(count):
+        off = rng.choice([1, 2, 5, 6, 7, PAGE - 1, PAGE, PAGE + 1, 5000, 2 * PAGE, 2 * PAGE + 7, 3 * PAGE - 1, rng.range(1, 20000)])
+        minb = rng.choice([1, 1, 4096, 1 << 20])
+        size = rng.choice([0, 3, 200, PAGE - off % PAGE, 2 * PAGE, rng.range(1, 6 * PAGE)])
+        data = gen_data(rng, size, window_of(minb)) if size else b""
+        comp = b""
+        if rng.chance(1, 2):
+            comp = compress(rng, data, rng.choice(["gz", "bz2", "xz"]))
+        elif data[:2] == b"\x1f\x8b" or data[:3] == b"BZh":
+            data = b"x" + data
+        ops = gen_ops(rng, data, rng.choice([40, 300]))
+        cases.append("FP %s %x %s %s %x %s" % (rng.choice(["MO", "MO", "MOZ"]), minb, hexs(data), hexs(comp), off, ops or "-"))
+    return cases
+
+
 def gen_rc_cases(rng, count, big):
     cases = []
     for i in range(count):
@@ -771,9 +791,11 @@ def signature_of(case, k, msg, spec_tok, impl_tok):
     backend, data, ops = fp_fields(case)
     s, so = spec_tok.rsplit("@", 1)
     i, io = impl_tok.rsplit("@", 1) if "@" in impl_tok else (impl_tok, "?")
-    mode = "mmap" if backend == "M" else "mmap-fails" if backend in ("MF", "PF") else "read"
+    mode = "mmap" if backend == "M" else "mmap-fails" if backend in ("MF", "PF") else "fd-at-offset" if backend in ("MO", "MOZ") else "read"
     if i.startswith("EXC:") or i.startswith("CTOR-EXC:"):
         return "%s:exception" % ("compressed" if backend[0] == "Z" else mode)
+    if backend in ("MO", "MOZ") and case.split()[4] != "-":
+        mode = "fd-at-offset:compressed"
     if s == "NAN" or is_nan_tok(i):
         return "number:nan"
     if s == i or s == "END":
@@ -812,6 +834,7 @@ def run(ctx):
             for ops in ("L" * (content.count(b"\n") + 2) + "G", "DW" * (len(content.split()) + 1) + "LG"):
                 fp_cases.append("FP PF %x %s - - %s %s" % (rng.choice([1, 4096, 1 << 20]), hexs(content), ops, name))
     fp_cases += gen_final_number_cases(rng.fork(), ctx.pick(16, 120))
+    fp_cases += gen_at_offset_cases(rng.fork(), ctx.pick(30, 300))
     rc = gen_rc_cases(rng, ctx.pick(40, 400), big)
     bfp, brc = gen_boundary_cases(rng, 15, ctx.pick(4, 30))
     if big:
@@ -869,7 +892,7 @@ def run(ctx):
             backend, data, ops = fp_fields(c)
             mt = model_to_impl_tokens(b, ops)
             it = a.split()
-            if backend not in ("M", "R", "MF", "PF"):
+            if backend not in ("M", "R", "MF", "PF") and not (backend in ("MO", "MOZ") and c.split()[4] == "-"):
                 # the read() sizes of these backends are the kernel's / the decompressor's: by C18_window_refines_spec only the
                 # *kind* of failure on an exhausted input may depend on them (when at_end_ is discovered); values never do
                 st = oracle_tokens(data, ops)
